@@ -38,7 +38,7 @@ def _engine(P, rows_state, log=None):
         if isinstance(term, T) and term.op == 'cmp' and term.args[1] == _len(B) and term.args[2] == 0:
             return {'==': False, '!=': True, '>': True, '<=': False, '<': False, '>=': True}.get(term.args[0])
         return None
-    return Engine(P, on_attr=on_attr, oracle=oracle)
+    return Engine(P, on_attr=on_attr, oracle=oracle, trace_attrs=('_rows',))
 
 
 def _run(P, fi, rows_state, **params):
@@ -146,6 +146,26 @@ def rule_fetchsib(P) -> RuleResult:
                              'again by the next fetch) and the position does not move')
                     elif not ys:
                         fail('consume', f'iteration returns `{show(v)}`, which does not fetch')
+                    else:
+                        # a generator: other fetches may run between two rows, so every row must come from the buffer as it is
+                        # *then* (the buffer attribute is rebound by fetchmany / fetchall / execute), and count as delivered
+                        seen_yield = -1
+                        for i, e in enumerate(p.events):
+                            if e[0] != 'yield':
+                                continue
+                            reads = [j for j in range(seen_yield + 1, i) if p.events[j][0] == 'read' and p.events[j][1] == CUR]
+                            if not reads:
+                                fail('stale', 'the generator keeps a reference to the row buffer across rows: after fetchmany(), fetchall() '
+                                     'or execute() on the same cursor (they rebind the buffer) it goes on delivering rows of the old '
+                                     'buffer - rows are delivered twice and the position overshoots')
+                                break
+                            seen_yield = i
+                        n_y = len(ys)
+                        incs = _pos_incs(p)
+                        if any(i != 1 for i in incs) or (len(incs) != n_y and not any(e[0] == 'loop-cut' for e in p.events)) \
+                                or (any(e[0] == 'loop-cut' for e in p.events) and len(incs) not in (n_y, n_y + 1)):
+                            fail('count', f'iteration must advance the position by 1 per delivered row; {n_y} rows, position moved by '
+                                 f'{[show(i) for i in incs] or "nothing"}')
         if len(res.findings) == n0:
             res.ok({'method': name, 'cases': ['not executed', 'exhausted', 'non-empty buffer']})
     fm = cur.methods.get('fetchmany')
